@@ -8,7 +8,7 @@ CONSTANTS
   ClientCodecs <- QCodecs
   ClientComps <- QComps
   Methods <- FMethods
-  MaxMsgs = 1
+  MaxMsgs = 2
   EndCodes <- HCodes
   HttpStatuses <- NoStatuses
   FlagValues <- QFlags
